@@ -18,11 +18,15 @@ PENDING = {
  "C03":"check under construction in this session (stream scenario); claimed once its quick command exists",
  "C04":"check under construction in this session (hostile scenario)",
  "C05":"check under construction in this session (proxy scenario)",
- "C15":"check under construction in this session (exchange scenario)",
  "C18":"check under construction in this session (share scenario)",
 }
 TECH = "deterministic simulation with fault injection"
 CLAIMED = {
+ "C15": dict(cat="exploration",
+   text="seeded fault-free sessions between the real client and the real server (generated frames of every kind, all versions x compressions x auth) and between each of them and an independent raw peer that chooses the v5 segmentation; equality of what was sent and received in both directions and a specification-level wire oracle on the tapped bytes",
+   ref="DESIGN.md §5 C15",
+   note="sampled frames, schedules and segmentations; the independent codec (refwire) covers headers, v5 segments with both checksums and a dozen message bodies; TLS not exercised",
+   tech=TECH+" (seeded schedules and delivery chunking over a simulated network; independent raw peer; wire oracle over the tapped bytes)"),
  "C07": dict(cat="fault_enumeration",
    text="segments encoded by the real codec are altered in transit inside the checksums' guaranteed detection range and given to the real decoder: header+CRC-24 patterns enumerated exhaustively up to weight 4 (quick) / 7 (thorough) for both header sizes, payload+CRC-32 single flips exhaustively for payloads up to 4 KiB, pairs and bursts enumerated or sampled as listed in the evidence; plus seeded live v5 sessions over the simulated network with one segment corrupted in transit (nothing from it may be delivered, the receiver must close)",
    ref="DESIGN.md §5 C07",
